@@ -101,7 +101,7 @@ def _strata(tier):
         maxsizes=(2, 1, 3, 5, None, 0),
         weights={'call': 16, 'burst': 1, 'load': 1, 'dump': 2, 'dumpk': 1, 'loadk': 1, 'clear': 1, 'clearkeep': 0,
                  'arch_off': 1, 'arch_on': 1, 'awrite': 1, 'redecorate': 2, 'reopen': 1, 'dumpreopen': 2, 'dumpswitch': 3, 'fork': 1},
-        max_ops=30 if tier == 'quick' else 60, pool=(3, 7), prefill_pct=10, relpath_pct=40)
+        max_ops=30 if tier == 'quick' else 60, pool=(3, 7), prefill_pct=10, relpath_pct=40, attach_later_pct=12)
 
 
 def per_call(case, tr, flags=None):
@@ -114,7 +114,7 @@ def per_call(case, tr, flags=None):
     after_switch = False
     # derived global clause: with a lossless archive attached all along and nothing explicitly cleared,
     # every key is evaluated at most once by all decorator instances sharing the cache object
-    global_ok = H.backend_archived(case['backend'])
+    global_ok = H.backend_archived(case['backend']) and not case.get('attach_later')      # (attached later: results computed before that are memory-only)
     total = {}
     for i, s in enumerate(tr.steps):
         if s.kind in ('arch_off', 'clear', 'clearkeep') or (s.kind in ('reopen', 'switch') and (i == 0 or tr.steps[i - 1].kind != 'dump')):
@@ -134,6 +134,10 @@ def per_call(case, tr, flags=None):
             if flags is not None and s.kind == 'switch' and s.result == 'switched':
                 flags['two_live_sessions'] = flags.get('two_live_sessions', 0) + 1
             continue
+        if s.kind == 'attach' and s.result is False:
+            out.append(Discrepancy('C02/attach/archive-not-attached', 'step %d: f.archive(%s handle) returned normally but f.archived() is False: from now on every result is memory-only and evicted keys are evaluated again' % (
+                i, 'cached' if case.get('attach_cached') else 'bare')))
+            return out
         if s.kind != 'call':
             if s.exc is not None and not (s.kind in ('arch_on', 'arch_off') and isinstance(s.exc, ValueError)):
                 out.append(Discrepancy('C02/%s/raised/%s' % (s.kind, H.exc_sig(s.exc)), 'step %d %r: %r' % (i, s.op, s.exc)))
